@@ -911,8 +911,8 @@ struct RealRunner
         // every accepted integration step may be off by epsilon_rel_max (relative): a-priori bound
         // (the truncation-error ESTIMATE is bounded by epsilon_rel_max, not the error itself: one
         // order of magnitude of slack, part of the trusted base)
-        double const eps_n = s.opts.epsilon_rel_max * static_cast<double>(std::max<long>(1, nstep));
-        double const pdrift_tol = s.stepper == 2 ? 1e-9 : std::max(1e-9, 10 * eps_n);
+        double const eps_n = 10 * s.opts.epsilon_rel_max * static_cast<double>(std::max<long>(1, nstep));
+        double const pdrift_tol = s.stepper == 2 ? 1e-9 : std::max(1e-9, eps_n);
 
         // ORACLE-DECIDED: analytic helix in a uniform field (closed form above)
         bool const uniform = s.field.type != 2;
